@@ -650,7 +650,10 @@ def _validate_translation(eng, ob, fn_item, nat, seed, n, saved_excl=()):
         # unsat does), but they provide a replayable witness when the solver later answers `unknown` on a violated query
         try:
             jl = theirs if not getattr(ob, "validate_key", None) else nat(ob.eval_key, native_args(ob, allvars, vals))
-            if len(getattr(ob, "_probe_ces", [])) < 3 and judge_native(ob, allvars, vals, jl) \
+            _a, _vs, _cons, _r, _e = build_args(ob)
+            _sub = [(v, z3.IntVal(vals[str(v)])) for v in _vs]
+            in_domain = all(zsimp(z3.substitute(Z(c), *_sub)) is True for c in _cons)   # e.g. canonical durations only
+            if in_domain and len(getattr(ob, "_probe_ces", [])) < 3 and judge_native(ob, allvars, vals, jl) \
                     and not _in_known_finding_class(eng, ob, fn_item, vals, saved_excl):
                 ob.__dict__.setdefault("_probe_ces", []).append({"inputs": dict(vals), "native": jl, "mode": eng.mode})
         except Exception:
